@@ -91,8 +91,12 @@ def gen_plan(seed: int, tier: str, focus: str = "c10") -> dict:
             op = {"op": "stall", "on": r.random() < 0.5}
         elif x < 0.90:
             op = {"op": "close"}
+            if focus == "c11" and r.random() < 0.3:
+                op["cancel_ticks"] = r.choice([0, 0, 1, 2, 3])  # the caller gives up on close() n loop iterations in
         elif x < 0.93:
             op = {"op": "shutdown"}
+            if focus == "c11" and r.random() < 0.3:
+                op["cancel_ticks"] = r.choice([0, 0, 1, 2, 3])
         elif x < 0.97:
             op = {"op": "subscribe", "ids": [[1, 10], [1, 11], [2, 12]]}
         else:
